@@ -23,12 +23,15 @@ sys.path.insert(0, os.path.dirname(os.path.dirname(os.path.abspath(__file__))))
 MANIFEST = {
     "text": "Lean theorems over executable models of encoding/sec.py, key/Key.py (constructor checks, sec/hash160/address/wif), "
             "ParseAPI.wif, bitcoinish.wif_for_blob and satoshi/der.py, for all inputs: WIF round trip on every network of the generated "
-            "table (both compression flags, 1- and 2-byte prefixes); SEC round trip in both forms with compression flag, hash160 and "
-            "address preserved; an accepted SEC blob is the unique encoding of a curve point with coordinates below p; strict/non-strict "
-            "prefix and length rules; constructor range and on-curve checks with the documented error classes; DER round trip for all "
-            "r, s >= 0 (long-form lengths included), strict decoding refuses trailing bytes after the sequence and after the second "
-            "integer, sign padding exactly when the top bit is set. Model tied to the code by differential correspondence on every run "
-            "(both arithmetic configurations where the generator is multiplied).",
+            "table (both compression flags, 1- and 2-byte prefixes, prefix agreement by decide over the whole table) including the "
+            "existence of the key for every exponent in [1, n-1]; SEC round trip in both forms with compression flag, hash160 and "
+            "address preserved (no side condition on secp256k1: no point with y = 0); an accepted SEC blob is the unique encoding of a "
+            "curve point with coordinates below p; strict and non-strict prefix/length rules exactly as coded; constructor range and "
+            "on-curve checks with the documented error classes; DER round trip for all r, s >= 0 shorter than 2^64 bytes (long-form "
+            "lengths included), strict decoding refuses trailing bytes after the sequence and after the second integer, sign padding "
+            "exactly when the top bit is set and no other leading zero. Model tied to the code by differential correspondence on every "
+            "run (both arithmetic configurations where the generator is multiplied); the driver's multiplication is proved equal to "
+            "the model's.",
     "note": "Networks of the Groestlcoin family need the absent groestlcoin_hash module and are skipped (their Base58Check hash is not "
             "double SHA-256). libsecp256k1 is absent: that backend is never run. sec_to_public_pair is modelled for calls that pass a "
             "generator (every caller in pycoin does).",
@@ -592,7 +595,7 @@ def gen(ctx, emit):
                     if L == 0:
                         break
     # valid points, both forms, parity/prefix mismatches, hybrid prefixes, y >= p
-    pts = [(GX, GY), (GX, P - GY)] + [rand_point(rng) for _ in range(ctx.n(60, 3000))]
+    pts = [(GX, GY), (GX, P - GY)] + [rand_point(rng) for _ in range(ctx.n(120, 3000))]
     for (x, y) in pts:
         for c in "10":
             emit("sec_enc %d %d %s" % (x, y, c))
@@ -645,7 +648,7 @@ def gen(ctx, emit):
         for d in (0, 1, 2, N - 1, N, N + 1, 2 ** 256 - 1, 2 ** 256, -1):
             emit("key_ctor_d %s %d" % (cfg, d))
             emit("wif_enc %s btc %d 1" % (cfg, d))
-    for _ in range(ctx.n(4, 200)):
+    for _ in range(ctx.n(8, 200)):
         d = 1 + rng.randrange(N - 1)
         emit("key_ctor_d ossl %d" % d)
         emit("key_ctor_d pure %d" % d)
